@@ -197,8 +197,17 @@ fn value(o: &mut Out, v: &Value, parent: i64, what: &str) {
                     _ => false,
                 }
             }
+            // (a chain of string literals alone is an expression the user wrote: the parser builds the pieces form only for a value
+            // that holds at least one binding next to text or to another binding)
+            fn has_binding(e: &Expression) -> bool {
+                match e {
+                    Expression::ToStringWithoutUndefined { .. } => true,
+                    Expression::Plus { left, right, .. } => has_binding(left) || has_binding(right),
+                    _ => false,
+                }
+            }
             let mixed = match &**expression {
-                Expression::Plus { left, right, .. } => is_piece(left) && is_piece(right),
+                Expression::Plus { left, right, .. } => is_piece(left) && is_piece(right) && has_binding(expression),
                 Expression::ToStringWithoutUndefined { .. } => true,
                 _ => false,
             };
